@@ -1,3 +1,4 @@
+import Ebu.Generated.SqlFacts
 import Ebu.Model.Durable
 import Ebu.Proofs.Durable
 /-!
@@ -38,6 +39,39 @@ theorem new_offsets_larger (ops : List Op) (r : Nat) :
 theorem open_idempotent (s : Db × Acked) :
     step (step s .open) .open = step s .open ∧ (step s .open).1.rows = s.1.rows ∧ (step s .open).1.subs = s.1.subs :=
   Ebu.Durable.open_idempotent s
+
+/-! ### obligations on the CURRENT source (SQL text regenerated from stores/sqlite on every run)
+
+The model's assumptions name what the store must ask SQLite for; these are checked on the
+extracted statements by the kernel. -/
+
+open Ebu.Generated.Sql in
+/-- the database is opened in WAL mode with synchronous = NORMAL (a committed transaction
+survives the death of the process) -/
+theorem journal_mode_wal : pragmas.contains ["PRAGMA", "journal_mode", "=", "WAL"] = true ∧
+    pragmas.contains ["PRAGMA", "synchronous", "=", "NORMAL"] = true := by decide
+
+open Ebu.Generated.Sql in
+/-- positions come from an AUTOINCREMENT primary key: never reused, strictly increasing -/
+theorem positions_autoincrement :
+    (migrateInTx.any (fun st => st.take 6 == ["CREATE", "TABLE", "IF", "NOT", "EXISTS", "events"] &&
+      (st.drop 6).take 6 == ["(", "position", "INTEGER", "PRIMARY", "KEY", "AUTOINCREMENT"])) = true := by decide
+
+open Ebu.Generated.Sql in
+/-- Append is exactly one INSERT and SaveOffset exactly one UPSERT (each a single atomic statement:
+a kill can only land before or after it) -/
+theorem append_and_save_are_single_statements :
+    appendExecs = 1 ∧ saveOffsetExecs = 1 ∧ appendSql.take 3 == ["INSERT", "INTO", "events"] ∧
+    (saveOffsetSql.take 3 == ["INSERT", "INTO", "subscription_positions"] && saveOffsetSql.contains "CONFLICT" &&
+      saveOffsetSql.contains "UPDATE") = true := by decide
+
+open Ebu.Generated.Sql in
+/-- the schema and its version row are created in one transaction; opening again only re-runs
+idempotent statements (`IF NOT EXISTS`) -/
+theorem migrate_in_one_tx :
+    migrateInTx.length = 4 ∧ (migrateInTx.getLast?.map (fun st => st.take 3)) = some ["INSERT", "INTO", "schema_version"] ∧
+    (migrateOutsideTx.all (fun st => st.take 5 == ["CREATE", "TABLE", "IF", "NOT", "EXISTS"])) = true ∧
+    ((migrateInTx.take 3).all (fun st => (st.drop 2).take 3 == ["IF", "NOT", "EXISTS"])) = true := by decide
 
 /-- the harness judgement accepts exactly what the model can produce after a kill during an
 append: the acknowledged events, in order, plus at most the one in flight -/
